@@ -28,12 +28,20 @@ def rand_mac(rng):
     return bytes(b)
 
 
-def related_mac(rng, base):
+def related_mac(rng, base, fold=False):
     """an address that differs from base only a little: one bit of one byte, only the first two bytes (a vendor
     prefix and its locally administered twin), only the last byte - address comparisons that drop or mangle a byte
     treat the two as one station"""
     b = bytearray(base)
-    r = rng.random()
+    r = 0.0 if fold else rng.random()
+    if r < 0.12:
+        # the same bit pattern flipped in two places (a comparison that folds the halves of an address together cancels it)
+        d0, d1 = rng.choice([(0x02, 0x00), (0x00, 0x01), (0x02, 0x10), (0x40, 0x80)])
+        b[0] ^= d0; b[1] ^= d1; b[4] ^= d0; b[5] ^= d1
+        b[0] &= 0xFE
+        if bytes(b) in (bytes(base), W.BCAST):
+            b[3] ^= 0x55
+        return bytes(b)
     if r < 0.35:
         b[0] ^= rng.choice([0x02, 0x04, 0x40, 0x80, 0x06])
         if rng.random() < 0.5:
@@ -251,7 +259,7 @@ def f_discover(rng, net, m=None, tos=None, ack=None, bridged=None, gen=None, xid
         xid = net.last_seq if (net.last_seq is not None and rng.random() < 0.3) else rng.choice([0, 1, 0xFFFF, rng.getrandbits(16), rng.getrandbits(16)])
     net.last_seq = xid
     n = rng.choice([0, 1, 2, 5]) if nstations is None else nstations
-    sts = [rng.choice(net.strangers) for _ in range(n)]
+    sts = [rng.choice(net.strangers) if rng.random() < 0.9 else edge_mac(rng) for _ in range(n)]
     ack = (rng.random() < 0.5) if ack is None else ack
     if ack and n:
         sts[rng.randrange(n)] = net.own
